@@ -41,6 +41,7 @@ var c15Shapes = []mrepo.ConfigEntry{
 	{Key: "refgroup.a.b.c.include", Value: "refs/remotes/o"}, // nested three deep: a -> a.b -> a.b.c
 	{Key: "refgroup.g.include", Value: "refs/heads\n"},       // a value ending in LF (under -z the LF is part of the value)
 	{Key: "refgroup.tags.name", Value: ""},                   // empty name for a built-in group
+	{Key: "foo.big", Value: strings.Repeat("v", 70000)},      // a record longer than 64 KiB
 }
 
 type nulEntry struct {
@@ -336,6 +337,6 @@ func c15Worker(sh *explore.Shard) {
 
 func init() {
 	Registry["C15"] = &Check{Level: "exploration", Worker: c15Worker, QuickBudget: 70 * time.Second, ThoroughBudget: 10 * time.Minute,
-		Rule:        "all configuration texts of <=2 (quick) / <=3 (thorough) entries over 21 entry shapes (refgroup include/exclude/includeRegexp/name for groups g, G, a.b, a.b.c, 'g.' and h; keys without a value, foreign and refgroup; empty, multi-line, LF-terminated, '='-bearing and quoted values; empty display names overriding earlier ones; look-alike sections refgroupx/xrefgroup/refgroup.include), every assignment of the entries to the local/global/system/command scopes for single entries and for pairs over the first 9 shapes (thorough: all pairs); real git's own `config --list -z` (same flags and environment as git-sizer) parsed NUL-first is the reference for Repository.GetConfig(prefix) on 5 prefixes and, one level up, for the groups the real RefGroupBuilder builds (Categorize on the reference universe, display names). non-trivial = texts with >=2 entries or a non-local scope",
+		Rule:        "all configuration texts of <=2 (quick) / <=3 (thorough) entries over 22 entry shapes (one value of 70000 bytes) (refgroup include/exclude/includeRegexp/name for groups g, G, a.b, a.b.c, 'g.' and h; keys without a value, foreign and refgroup; empty, multi-line, LF-terminated, '='-bearing and quoted values; empty display names overriding earlier ones; look-alike sections refgroupx/xrefgroup/refgroup.include), every assignment of the entries to the local/global/system/command scopes for single entries and for pairs over the first 9 shapes (thorough: all pairs); real git's own `config --list -z` (same flags and environment as git-sizer) parsed NUL-first is the reference for Repository.GetConfig(prefix) on 5 prefixes and, one level up, for the groups the real RefGroupBuilder builds (Categorize on the reference universe, display names). non-trivial = texts with >=2 entries or a non-local scope",
 		Assumptions: []string{"git 2.39.5 is the reference parser of configuration files", "how a key that has no value is itself presented is not constrained; only that it does not disturb other entries"}}
 }
